@@ -1652,13 +1652,6 @@ bool QXmppMessage::parseExtension(const QDomElement &element, QXmpp::SceMode sce
             }
             return true;
         }
-        // XEP-0353: Jingle Message Initiation
-        if (QXmppJingleMessageInitiationElement::isJingleMessageInitiationElement(element)) {
-            QXmppJingleMessageInitiationElement jingleMessageInitiationElement;
-            jingleMessageInitiationElement.parse(element);
-            d->jingleMessageInitiationElement = jingleMessageInitiationElement;
-            return true;
-        }
         // XEP-0359: Unique and Stable Stanza IDs
         if (checkElement(element, u"stanza-id", ns_sid)) {
             d->stanzaIds.push_back(QXmppStanzaId {
@@ -1692,13 +1685,6 @@ bool QXmppMessage::parseExtension(const QDomElement &element, QXmpp::SceMode sce
             return true;
         }
 #endif
-        // XEP-0482: Call Invites
-        if (QXmppCallInviteElement::isCallInviteElement(element)) {
-            QXmppCallInviteElement callInviteElement;
-            callInviteElement.parse(element);
-            d->callInviteElement = callInviteElement;
-            return true;
-        }
     }
     if (sceMode & QXmpp::SceSensitive) {
         if (element.tagName() == u"body") {
@@ -1819,6 +1805,13 @@ bool QXmppMessage::parseExtension(const QDomElement &element, QXmpp::SceMode sce
             }
             return true;
         }
+        // XEP-0353: Jingle Message Initiation
+        if (QXmppJingleMessageInitiationElement::isJingleMessageInitiationElement(element)) {
+            QXmppJingleMessageInitiationElement jingleMessageInitiationElement;
+            jingleMessageInitiationElement.parse(element);
+            d->jingleMessageInitiationElement = jingleMessageInitiationElement;
+            return true;
+        }
         // XEP-0367: Message Attaching
         if (checkElement(element, u"attach-to", ns_message_attaching)) {
             d->attachId = element.attribute(u"id"_s);
@@ -1871,6 +1864,13 @@ bool QXmppMessage::parseExtension(const QDomElement &element, QXmpp::SceMode sce
             if (auto fileSources = QXmppFileSourcesAttachment::fromDom(element)) {
                 d->fileSourcesAttachments.push_back(std::move(*fileSources));
             }
+            return true;
+        }
+        // XEP-0482: Call Invites
+        if (QXmppCallInviteElement::isCallInviteElement(element)) {
+            QXmppCallInviteElement callInviteElement;
+            callInviteElement.parse(element);
+            d->callInviteElement = callInviteElement;
             return true;
         }
     }
